@@ -18,6 +18,17 @@ def coding_cases(draw, tier, fast=None, vt=None, message=None, force_table=False
     is_fast = draw(st.booleans()) if fast is None else fast
     weights = {1: 2, 2: 4, 3: 4, 4: 2, 5: 1}
     graph = draw(gens.coding_graphs(1, kmax, fast=is_fast, weights=weights))
+    if draw(st.sampled_from([False] * 24 + [True])):
+        # the observed lengths used in practice (1,024..65,536 vertices, indices beyond 2^15), mixed out-degrees incl.
+        # single-arc vertices; pruned to a well-formed graph by the oracle
+        import random
+        k = draw(st.sampled_from([5, 6, 7, 8]))
+        big = random.Random(draw(st.integers(0, 2 ** 32 - 1)))
+        palette = [15, 15, 5, 10, 3, 12, 6, 9, 1, 2, 4, 8] if is_fast else [15, 15, 7, 11, 13, 14, 5, 10, 3, 12, 1, 2, 4, 8]
+        rows = o.prune_to_well_formed([big.choice(palette) for _ in range(4 ** k)], k)
+        starts = [v for v, r in enumerate(rows) if r]
+        if starts and (not is_fast or all(bin(r).count("1") != 3 for r in rows)):
+            graph = {"k": k, "rows": rows, "start": starts[big.randrange(len(starts))], "large_k": True}
     if graph["k"] >= 4:
         max_len = min(max_len, 400)
     bits = draw(gens.messages(max_len)) if message is None else draw(message)
@@ -153,7 +164,8 @@ def walk_classes(case, strand):
         if nxt is None:
             break
         v = nxt
-    labels = ["k=%d" % k, "fast" if case["fast"] else "normal", "table" if case["table"] is not None else "no_table"]
+    labels = ["k=%d" % k, "fast" if case["fast"] else "normal", "table" if case["table"] is not None else "no_table"] + (
+        ["large_k"] if case["graph"].get("large_k") else [])
     labels += ["deg%d_met" % d for d in sorted(degrees)]
     if len(degrees) >= 2:
         labels.append("mixed_degrees")
